@@ -231,7 +231,7 @@ func checkC18(c *Ctx, r *Report) {
 		name := c.FnName(fn)
 		r.Fn(name)
 		cmdParam := fn.Params[len(fn.Params)-1]
-		complete := enumPaths(fn, 2, 20000, func(p CPath) {
+		complete := enumPaths(fn, 2, 1000000, func(p CPath) {
 			if _, isRet := p.Last().(*ssa.Return); !isRet {
 				return
 			}
@@ -432,7 +432,7 @@ func checkC18(c *Ctx, r *Report) {
 				name := c.FnName(fn)
 				r.Fn(name)
 				r.Rule("open-accounting", "per open call: attempts incremented exactly once before the attempt; failures exactly once on every error-returning path; the open gauge incremented exactly once on every success path and never otherwise", 4)
-				enumPaths(fn, 2, 20000, func(p CPath) {
+				enumPaths(fn, 2, 1000000, func(p CPath) {
 					if _, isRet := p.Last().(*ssa.Return); !isRet {
 						return
 					}
@@ -470,7 +470,7 @@ func checkC18(c *Ctx, r *Report) {
 				name := c.FnName(fn)
 				r.Fn(name)
 				r.Rule("close-accounting", "per close call: the open gauge is decremented exactly once on every exit and nothing else is counted", 2)
-				enumPaths(fn, 2, 20000, func(p CPath) {
+				enumPaths(fn, 2, 1000000, func(p CPath) {
 					pe := mi.pathEvents(p)
 					for _, e := range pe {
 						anchored[e.In] = true
